@@ -114,6 +114,68 @@ theorem errors_surface (ds : List Disp) (a : Around) (bodyRaises : Bool)
     · simp [ha] at h
   · by_cases hp : a.pendingCancel <;> simp [ha, hp]
 
+theorem mem_raisers (ds : List Disp) : ∀ (i d : Nat),
+    d ∈ raisers i ds ↔ i ≤ d ∧ ∃ x, ds[d - i]? = some x ∧ x.enter = .entered ∧ x.exitRaises = true := by
+  induction ds with
+  | nil => intro i d; simp [raisers]
+  | cons x xs ih =>
+    intro i d
+    simp only [raisers, List.mem_append, ih]
+    constructor
+    · rintro (h | ⟨h1, y, h2, h3⟩)
+      · split at h
+        · simp only [List.mem_singleton] at h; subst h
+          rename_i hx; exact ⟨Nat.le_refl _, x, by simp, hx.1, hx.2⟩
+        · simp at h
+      · refine ⟨by omega, y, ?_, h3⟩
+        have : d - i = (d - (i + 1)) + 1 := by omega
+        rw [this]; simpa using h2
+    · rintro ⟨h1, y, h2, h3⟩
+      by_cases hd : d = i
+      · subst hd
+        simp only [Nat.sub_self, List.getElem?_cons_zero, Option.some.injEq] at h2; subst h2
+        left; simp [h3.1, h3.2]
+      · right
+        refine ⟨by omega, y, ?_, h3⟩
+        have : d - i = (d - (i + 1)) + 1 := by omega
+        rw [this] at h2; simpa using h2
+
+/-- C08.cleanup_errors_reach_caller: the error raised by the `__aexit__` of **any** disposable that was exited reaches
+the caller – as the exception raised, inside the raised group, or on its cause / context chain – after the body *and* on
+the rollback of a failed or interrupted enter; and nothing else is reported as a cleanup error. -/
+theorem cleanup_errors_reach_caller (ds : List Disp) (a : Around) (hp : a.pendingCancel = false) (d : Nat) :
+    d ∈ surfaced ds a ↔ ∃ x, ds[d]? = some x ∧ x.enter = .entered ∧ x.exitRaises = true := by
+  simp [surfaced, hp, mem_raisers]
+
+/-- … and exactly the disposables whose exit was called (`balanced`) can be among them -/
+theorem surfaced_were_exited (ds : List Disp) (a : Around) (bodyRaises : Bool) (d : Nat) (h : d ∈ surfaced ds a) :
+    d < ds.length ∧ count (run ds a bodyRaises).1 (isExit d) = 1 := by
+  have hp : a.pendingCancel = false := by
+    cases hpc : a.pendingCancel
+    · rfl
+    · simp [surfaced, hpc] at h
+  obtain ⟨x, hx, he, _⟩ := (cleanup_errors_reach_caller ds a hp d).1 h
+  have hd : d < ds.length := by
+    rcases Nat.lt_or_ge d ds.length with h' | h'
+    · exact h'
+    · simp [List.getElem?_eq_none h'] at hx
+  refine ⟨hd, ?_⟩
+  have := (balanced ds a hp bodyRaises d hd).2.1
+  simpa [hx, he] using this
+
+/-- a cleanup error that reaches the caller is an exception the caller sees -/
+theorem surfaced_caller_sees (ds : List Disp) (a : Around) (bodyRaises : Bool) (d : Nat) (h : d ∈ surfaced ds a) :
+    (run ds a bodyRaises).2 = true := by
+  have hp : a.pendingCancel = false := by
+    cases hpc : a.pendingCancel
+    · rfl
+    · simp [surfaced, hpc] at h
+  obtain ⟨x, hx, _, hr⟩ := (cleanup_errors_reach_caller ds a hp d).1 h
+  apply errors_surface
+  left
+  simp only [List.any_eq_true]
+  exact ⟨x, List.mem_of_getElem? hx, hr⟩
+
 /-- C08.quiet_when_clean: the caller sees no exception when everything entered, the body returned and no
 cleanup raised (no spurious failure). -/
 theorem quiet_when_clean (ds : List Disp) (h : allEntered ds = true) (he : ds.any (·.exitRaises) = false) :
@@ -139,6 +201,8 @@ example :
     run [⟨.entered, false⟩, ⟨.failed, false⟩, ⟨.interrupted, false⟩, ⟨.entered, true⟩] {} false
       = ([.enterCall 0, .enterCall 1, .enterCall 2, .enterCall 3, .exitCall 0 true, .exitCall 3 true], true) := by
   decide
+
+example : surfaced [⟨.entered, true⟩, ⟨.failed, false⟩, ⟨.entered, false⟩, ⟨.entered, true⟩] {} = [0, 3] := by decide
 
 example :
     run [⟨.entered, false⟩, ⟨.entered, true⟩] {} false
